@@ -444,7 +444,12 @@ func (client *client) readLoop() {
 				}
 			}
 		}
-		client.in <- packet
+		select {
+		case client.in <- packet:
+		case <-client.close:
+			// nobody receives from client.in any more once readHandle has returned
+			return
+		}
 		select {
 		case <-client.connected:
 		case <-client.authStep:
